@@ -138,7 +138,7 @@ func (p *P) gPrepareExit(rule string) {
 func phiEdgesExecutable(s *SCCP, ph *ssa.Phi) []string {
 	var out []string
 	for i, pr := range ph.Block().Preds {
-		if s.edge[[2]int{pr.Index, ph.Block().Index}] {
+		if s.EdgeExec(pr, ph.Block()) {
 			out = append(out, canon(ph.Edges[i]))
 		}
 	}
@@ -198,7 +198,7 @@ func (p *P) gCommitJustification(rule string) {
 			s := RunSCCP(bc, map[ssa.Value]AV{v: avNil})
 			used := false
 			for i, pr := range ph.Block().Preds {
-				if ph.Edges[i] == v && s.edge[[2]int{pr.Index, ph.Block().Index}] {
+				if ph.Edges[i] == v && s.EdgeExec(pr, ph.Block()) {
 					used = true
 				}
 			}
